@@ -29,7 +29,7 @@
 /*---------------------------------------------------------------------------*/
 
 #define DestRegCnt   16
-#define SrcRegCnt    16
+#define SrcRegCnt    17
 #define ALUSrcRegCnt 4
 
 typedef struct {
@@ -531,6 +531,8 @@ static void InitFields(void) {
     SrcRegs = (TReg*)malloc(sizeof(TReg) * SrcRegCnt);
     InstrZ  = 0;
     AddSrcReg("NON", 0);
+    /* uPD77C25: source code 0000 is the register TRB */
+    AddSrcReg((MomCPU == CPU7725) ? "TRB" : "NON", 0);
     AddSrcReg("A", 1);
     AddSrcReg("B", 2);
     AddSrcReg("TR", 3);
